@@ -2,8 +2,8 @@
 import vf
 
 LEVEL_TEXT = ('bounded model checking of the real position bookkeeping: for every byte-consuming atom family (any, bytes, one, not_one, range, not_range, '
-              'ranges, string, istring, UTF-8 any/one/not_one/range/ranges, eol, eolf, until<eol>, rep_one_min_max, space/identifier, integer and raw_string '
-              'uses of bump_in_this_line) and for small backtracking / raising grammars, compiled from the real headers for each of the five end-of-line '
+              'ranges, string, istring, UTF-8 any/one/not_one/range/ranges, eol, eolf, until<eol>, rep_one_min_max, space/identifier, the integer rules\' '
+              'use of bump_in_this_line) and for small backtracking / raising grammars, compiled from the real headers for each of the five end-of-line '
               'policies, CBMC runs the rule on symbolic bytes after a symbolic generic bump(s), on an eager and on a lazy memory_input constructed with '
               'symbolic initial byte/line/column, and compares every observable position (input counters, position(), Control::start/success/failure/raise, '
               'action_input::position(), parse-tree node begin/end) with an independent recount of the consumed prefix, and eager with lazy. '
@@ -16,6 +16,9 @@ ASSUMPTIONS = [
     'buffer (heap growth _M_create and the null-pointer logic_error path are modelled as traps and proved unreachable)',
     'initial line and column are >= 1 (asserted by the inputerator constructor); initial counters range over [0, 1000] (quick) / [0, 2^40] (thorough)',
     'buffer_input counters are not encoded here (same internal::bump* functions; buffer_input is the subject of C07); UTF-16/32 and multi-byte binary rules excluded as documented',
+    'raw_string (bump_in_this_line over its brackets, eol after the opening bracket) is not encoded here: over 300 s per policy already at 4 bytes, where no line ending fits inside a match; '
+    'contrib/http.hpp chunk helper (bump_in_this_line over hex digits) needs parser state and is not encoded',
+    'parse-tree nodes: node::start/success/begin/end are called directly as parse_tree::parse calls them; the tree builder itself (state stack, transformers) is the subject of C12',
     'parse_error construction (message formatting) is replaced by a control whose raise() throws the in.position() triple that parse_error( msg, in ) would store',
 ]
 
@@ -37,12 +40,12 @@ U8 = 'ab\\n\\r\\xc3\\xa4\\xe2\\x82\\xac'
 
 # name, rule, bytes among "\n\r" the rule itself can consume, options
 CASES = [
-    dict(name='any', cxx='any', eats='\n\r', quick=1),
+    dict(name='any', deep=1, cxx='any', eats='\n\r', quick=1),
     dict(name='bytes2', cxx='bytes< 2 >', eats='\n\r', quick=1),
     dict(name='bump_only', cxx='success', eats='', can_fail=0, consumes=0, quick=1),
     dict(name='one_a', cxx="one< 'a' >", eats='', quick=1),
     dict(name='one_lf', cxx="one< '\\n' >", eats='\n'),
-    dict(name='one_mix', cxx="one< 'a', '\\r', '\\n' >", eats='\n\r', quick=1),
+    dict(name='one_mix', deep=1, cxx="one< 'a', '\\r', '\\n' >", eats='\n\r', quick=1),
     dict(name='not_one_a', cxx="not_one< 'a' >", eats='\n\r', quick=1),
     dict(name='not_one_lf', cxx="not_one< '\\n' >", eats='\r', quick=1),
     dict(name='not_one_eols', cxx="not_one< '\\r', '\\n' >", eats=''),
@@ -65,8 +68,8 @@ CASES = [
     dict(name='utf8_range', cxx='utf8::range< 0x80, 0x10ffff >', eats='', alphabet=U8, quick=1),
     dict(name='utf8_ranges', cxx='utf8::ranges< 0x9, 0xd, 0x80, 0x7ff >', eats='\n\r', alphabet=U8),
     dict(name='utf8_string', cxx="utf8::string< 0xe4, '\\n' >", eats='\n', alphabet=U8),
-    dict(name='eol', allpol=1, cxx='eol', eats='\n\r', d12=D12_AT_S, quick=1),
-    dict(name='eolf', allpol=1, cxx='eolf', eats='\n\r', d12=D12_AT_S, quick=1),
+    dict(name='eol', allpol=1, deep=1, cxx='eol', eats='\n\r', d12=D12_AT_S, quick=1),
+    dict(name='eolf', allpol=1, deep=1, cxx='eolf', eats='\n\r', d12=D12_AT_S, quick=1),
     dict(name='until_eol', allpol=1, cxx='until< eol >', eats='\n\r', d12=D12_FIRST_CR, helpers=H_FIRST_CR, quick=1),
     dict(name='until_eol_any', cxx='until< eol, any >', eats='\n\r', d12=D12_FIRST_CR, helpers=H_FIRST_CR),
     dict(name='rep_one_lf', cxx="rep_one_min_max< 1, 3, '\\n' >", eats='\n', includes=['tao/pegtl/contrib/rep_one_min_max.hpp'], quick=1),
